@@ -276,7 +276,9 @@ def o6(h, st):
         op = QubitOperator()
         op.terms = dict(H.terms)
         op += T
+        op_before = snapshot(dict(op.terms))
         top = h.call(TQ, "QubitTapering.z2_tapering", tap, op)
+        h.check(f"the operator handed to z2_tapering is unchanged (H + 0.37 * {word})", snapshot(dict(op.terms)) == op_before)
         topq = top.qubitoperator if hasattr(top, "qubitoperator") else top
         ev_t = np.linalg.eigvalsh(qubit_matrix(QubitOperator.from_openfermion(topq) if not isinstance(topq, QubitOperator) else topq, nt))
         sym = QubitOperator()
